@@ -95,7 +95,9 @@ func cmdDump(args []string) int {
 	out := fs.String("out", "", "output directory for .smt2 files")
 	run := fs.Bool("run", true, "run solvers")
 	to := fs.Int("timeout", 20, "seconds per obligation")
+	covers := fs.Bool("covers", false, "also check reachability of every return")
 	fs.Parse(args)
+	coverReturns = *covers
 	P, err := loadAll(*repo)
 	if err != nil {
 		fmt.Fprintln(os.Stderr, "engine error:", err)
